@@ -2,6 +2,7 @@
 use vmon::report::parse_args;
 
 mod hist;
+mod probe;
 mod snap;
 mod walker;
 
@@ -16,6 +17,7 @@ mod c42;
 fn main() {
     let args = parse_args();
     let code = match args.prop.as_str() {
+        "PROBE" => probe::run(&args),
         "C05" => c05::run(&args),
         "C06" => c06::run(&args),
         "C07" => c07::run(&args),
